@@ -44,7 +44,7 @@ theorem dial_once_per_connection {flag : Bool} {s : State} (h : Reachable flag s
 
 /-- the dial happens under `dialOnce` in the source, and nothing else is a bare `Once` there -/
 theorem dial_under_once :
-    (bareOps.filter (·.fn = "client.Dial")) = [⟨"region/new.go", "client.Dial", "do", "c.dialOnce"⟩] := by
+    (bareOps.filter (·.fn = "client.Dial")) = [⟨"region", "client.Dial", "do", "c.dialOnce"⟩] := by
   decide
 
 example : (run true init [.spawnEstablish, .estPut 5 1, .dial 0, .dial 0, .dial 0]).map
